@@ -19,6 +19,7 @@ func runC16(r *Report) {
 	ruleSkiplistShape(r)
 	ruleBoundsSign(r)
 	ruleHeapShape(r)
+	ruleSentinelForm(r, "pq", "skiplist")
 }
 
 func ruleSkiplistShape(r *Report) {
